@@ -58,7 +58,7 @@ func init() {
 		},
 		Run:            c18Run,
 		Replay:         c18Replay,
-		QuickBudget:    55 * time.Second,
+		QuickBudget:    240 * time.Second,
 		ThoroughBudget: 9 * time.Minute,
 	})
 }
